@@ -25,8 +25,11 @@ func runC11(c *Ctx) {
 		"C11.c Window.SetCell/SetStyle delegate only under their own strict four-sided guard with offsets added exactly once, to the screen iff Parent==nil",
 		"C11.d screen.setCell/setStyle called only from Window.SetCell/SetStyle",
 		"C11.e screenNext/screenLast handles do not escape (every use is a method-call receiver or a buffer access in the owners)",
+		"C11.f Characters builds every Character from a cluster boundary computed by uniseg (or a constant) with that cluster's width",
+		"C11.g text helpers advance the column by the character width between two placed cells",
+		"C11.h Print/Wrap start a new row exactly when col >= cols",
 	}
-	c.NotDec = []string{"reading order, cluster integrity, advance by width and row breaks of the text helpers (values from uniseg at run time)"}
+	c.NotDec = []string{"that uniseg's cluster boundaries and widths are themselves right; exact wrap positions chosen by Wrap (values computed at run time)"}
 	c.expect("C11.a", 12)
 	c.expect("C11.b", 8)
 	c.expect("C11.c", 20)
@@ -193,6 +196,11 @@ func runC11(c *Ctx) {
 		}
 		c11Window(c, fi, info, pair[0], pair[1], winObj)
 	}
+
+	c11TextHelpers(c)
+	c.expect("C11.f", 2)
+	c.expect("C11.g", 4)
+	c.expect("C11.h", 2)
 
 	// ---- C11.d: sole callers; C11.e: handles do not escape
 	vxObj, _ := pk.Types.Scope().Lookup("Vaxis").(*types.TypeName)
@@ -602,4 +610,218 @@ func handleUse(info *types.Info, parents map[ast.Node]ast.Node, sel *ast.Selecto
 		return "address taken"
 	}
 	return fmt.Sprintf("used in %T", parents[sel])
+}
+
+// ---- text helpers (second clause of C11): structural necessary conditions
+//   f  Characters builds every Character from a cluster returned by uniseg (or a constant), never from raw bytes
+//   g  after a cell is placed, the column advances by that character's width before the next cluster is placed
+//   h  Print/Wrap start a new row exactly when the row is full (col >= cols)
+
+func c11TextHelpers(c *Ctx) {
+	pk := c.P.Pkg("vaxis")
+	info := pk.TypesInfo
+	// f
+	if fi := c.P.Func("vaxis.Characters"); fi != nil {
+		clusterVars := map[types.Object]bool{}
+		widthVars := map[types.Object]bool{}
+		ast.Inspect(fi.Decl.Body, func(n ast.Node) bool {
+			as, ok := n.(*ast.AssignStmt)
+			if !ok || len(as.Rhs) != 1 {
+				return true
+			}
+			call, ok := as.Rhs[0].(*ast.CallExpr)
+			if !ok {
+				return true
+			}
+			fn := calleeOf(info, call)
+			if fn == nil || fn.Pkg() == nil || fn.Pkg().Path() != "github.com/rivo/uniseg" {
+				return true
+			}
+			if (fn.Name() == "FirstGraphemeClusterInString" || fn.Name() == "StepString") && len(as.Lhs) == 4 {
+				if id, ok := as.Lhs[0].(*ast.Ident); ok {
+					clusterVars[info.ObjectOf(id)] = true
+				}
+				if id, ok := as.Lhs[2].(*ast.Ident); ok && fn.Name() == "FirstGraphemeClusterInString" {
+					widthVars[info.ObjectOf(id)] = true
+				}
+			}
+			return true
+		})
+		n := 0
+		ast.Inspect(fi.Decl.Body, func(x ast.Node) bool {
+			cl, ok := x.(*ast.CompositeLit)
+			if !ok || typeName(info.TypeOf(cl)) != modPath+".Character" {
+				return true
+			}
+			n++
+			var gExpr, wExpr ast.Expr
+			for i, el := range cl.Elts {
+				if kv, ok := el.(*ast.KeyValueExpr); ok {
+					switch types.ExprString(kv.Key) {
+					case "Grapheme":
+						gExpr = kv.Value
+					case "Width":
+						wExpr = kv.Value
+					}
+				} else if i == 0 {
+					gExpr = el
+				} else if i == 1 {
+					wExpr = el
+				}
+			}
+			key := fmt.Sprintf("vaxis.Characters/Character{%s,...} built from a uniseg cluster", exprOrNil(gExpr))
+			okG := false
+			if gExpr != nil {
+				if _, isConst := constString(info, gExpr); isConst {
+					okG = true
+				} else if id, ok := unparen(gExpr).(*ast.Ident); ok && clusterVars[info.ObjectOf(id)] {
+					okG = true
+				}
+			}
+			c.check(okG, "C11.f", key, cl.Pos(), "grapheme is the cluster returned by uniseg (or a constant)", "a Character is built from "+exprOrNil(gExpr)+", not from a cluster boundary computed by uniseg: a grapheme cluster can be split across cells")
+			if wExpr != nil && okG {
+				if _, isConst := constInt(info, wExpr); !isConst {
+					id, ok := unparen(wExpr).(*ast.Ident)
+					c.check(ok && widthVars[info.ObjectOf(id)], "C11.f", fmt.Sprintf("vaxis.Characters/width of %s is the cluster's width", exprOrNil(gExpr)), cl.Pos(),
+						"width is the one uniseg returned for this cluster", "the width stored with the cluster is not the width uniseg computed for it")
+				}
+			}
+			return true
+		})
+		if n == 0 {
+			c.undecided("C11.f", "vaxis.Characters", fi.Decl.Pos(), "no Character literal found")
+		}
+	} else {
+		c.undecided("C11.f", "vaxis.Characters", 0, "Characters not found")
+	}
+	// g, h
+	for _, name := range []string{"Print", "PrintTruncate", "Println", "Wrap"} {
+		fi := c.P.Func("vaxis.Window." + name)
+		if fi == nil {
+			c.undecided("C11.g", "vaxis.Window."+name, 0, "not found")
+			continue
+		}
+		g := c.P.Graph(fi)
+		var colObj types.Object
+		// the column variable is the first argument of the SetCell calls
+		sets := g.Calls(func(fn *types.Func, _ *ast.CallExpr) bool { return fn != nil && repoName(fn) == "vaxis.Window.SetCell" })
+		if len(sets) == 0 {
+			c.undecided("C11.g", fi.Name+"/SetCell", fi.Decl.Pos(), "no SetCell call")
+			continue
+		}
+		for _, h := range sets {
+			call := h.Node.(*ast.CallExpr)
+			id, ok := unparen(call.Args[0]).(*ast.Ident)
+			if !ok {
+				c.undecided("C11.g", fi.Name+"/SetCell column", call.Pos(), "column argument is not a variable")
+				continue
+			}
+			colObj = info.ObjectOf(id)
+			isAdvance := func(n ast.Node) bool {
+				as, ok := n.(*ast.AssignStmt)
+				if !ok || len(as.Lhs) != 1 || as.Tok.String() != "+=" {
+					return false
+				}
+				lid, ok := as.Lhs[0].(*ast.Ident)
+				return ok && info.ObjectOf(lid) == colObj && c11IsWidthExpr(info, fi, as.Rhs[0])
+			}
+			// from the SetCell, the next SetCell (any) or loop head must not be reachable without the advance
+			reachedNext := false
+			g.walk(Loc{h.Loc.B, h.Loc.Idx + 1}, func(l Loc, n ast.Node) bool {
+				if containsNode(n, isAdvance) {
+					return false
+				}
+				if containsNode(n, func(m ast.Node) bool {
+					c2, ok := m.(*ast.CallExpr)
+					if !ok {
+						return false
+					}
+					fn := calleeOf(info, c2)
+					return fn != nil && repoName(fn) == "vaxis.Window.SetCell"
+				}) {
+					reachedNext = true
+					return false
+				}
+				return true
+			}, nil)
+			c.check(!reachedNext, "C11.g", fi.Name+"/column advances by the character width after each cell", call.Pos(),
+				"every path from a placed cell to the next placement passes `col += width`", "a cell can be placed after another without advancing the column by the character's display width")
+		}
+		if name == "Print" || name == "Wrap" {
+			// h: a branch on col >= cols whose true edge resets col and bumps row
+			found := false
+			colsT := Term{}
+			_ = colsT
+			for _, b := range g.Blocks {
+				cd := g.BranchCond(b)
+				if cd == nil || cd.Tag != nil {
+					continue
+				}
+				be, ok := unparen(cd.Expr).(*ast.BinaryExpr)
+				if !ok {
+					continue
+				}
+				atoms := cmpAtoms(info, be.X, be.Op, be.Y, true)
+				for _, a := range atoms {
+					// want: cols - col <= 0
+					if a.Kind == "lin" && a.K == 0 && a.B.ID == termOf(info, &ast.Ident{}).ID {
+						continue
+					}
+					if a.Kind == "lin" && a.K == 0 && strings.HasSuffix(a.B.Disp, "col") && strings.HasSuffix(a.A.Disp, "cols") {
+						// true successor must reset col and increment row
+						reset, bump := false, false
+						for _, n := range b.Succs[0].Nodes {
+							if as, ok := n.(*ast.AssignStmt); ok && len(as.Lhs) == 1 {
+								l := types.ExprString(as.Lhs[0])
+								if l == "col" {
+									if v, ok := constInt(info, as.Rhs[0]); ok && v == 0 && as.Tok.String() == "=" {
+										reset = true
+									}
+								}
+								if l == "row" && as.Tok.String() == "+=" {
+									bump = true
+								}
+							}
+						}
+						if reset && bump {
+							found = true
+						}
+					}
+				}
+			}
+			c.check(found, "C11.h", fi.Name+"/new row exactly when the row is full", fi.Decl.Pos(),
+				"`col >= cols` starts a new row at column 0", "no branch `col >= cols` ⇒ row++, col=0: a cluster is placed in a full row (and clipped away) or rows break early")
+		}
+	}
+}
+
+func exprOrNil(e ast.Expr) string {
+	if e == nil {
+		return "<nil>"
+	}
+	return types.ExprString(e)
+}
+
+// c11IsWidthExpr: e is char.Width, or a variable assigned from <x>.Width in fi
+func c11IsWidthExpr(info *types.Info, fi *FuncInfo, e ast.Expr) bool {
+	e = unparen(e)
+	if sel, ok := e.(*ast.SelectorExpr); ok && sel.Sel.Name == "Width" {
+		return typeName(info.TypeOf(sel.X)) == modPath+".Character"
+	}
+	if id, ok := e.(*ast.Ident); ok {
+		obj := info.ObjectOf(id)
+		ok2 := false
+		ast.Inspect(fi.Decl.Body, func(n ast.Node) bool {
+			if as, isAs := n.(*ast.AssignStmt); isAs && len(as.Lhs) == 1 && len(as.Rhs) == 1 {
+				if lid, isId := as.Lhs[0].(*ast.Ident); isId && info.ObjectOf(lid) == obj {
+					if sel, isSel := unparen(as.Rhs[0]).(*ast.SelectorExpr); isSel && sel.Sel.Name == "Width" && typeName(info.TypeOf(sel.X)) == modPath+".Character" {
+						ok2 = true
+					}
+				}
+			}
+			return true
+		})
+		return ok2
+	}
+	return false
 }
